@@ -150,6 +150,14 @@ def model(term):
     raise ValueError(op)
 
 
+def _count(term, op):
+    if term[0] in ("init", "select", "diag", "acc"):
+        return int(term[0] == op)
+    if term[0] == "comp":
+        return _count(term[1], op) + _count(term[2], op)
+    return sum(_count(t, op) for t in term[1])
+
+
 def depth(term):
     if term[0] in ("init", "select", "diag", "acc"):
         return 1
@@ -280,7 +288,7 @@ def _iface(term):
     return (tuple(sorted(m["req"])), tuple(sorted(m["out"])), tuple(m["typ"](t) for t in ((T_EMPTY, None), (T_GRAD, None), (T_JAC, 3))))
 
 
-def depth3_terms():
+def depth3_terms(stride=1, offset=0):
     reps = {}
     A = atoms(valid_only=True)
     base = list(A) + [["conj", []]]
@@ -302,7 +310,7 @@ def depth3_terms():
             terms.append(["comp", a, b])
             terms.append(["conj", [a, b]])
             terms.append(["stack", [a, b]])
-    return terms
+    return terms[offset::stride]
 
 
 _CACHE = {}
@@ -436,10 +444,17 @@ def parts(tier):
         Part("deep_terms", "given", n=n, strategy=lambda: _term_strategy(10).map(lambda t: {"kind": "term", "term": t})),
         Part("laws", "given", n=n, strategy=_pipeline),
     ]
-    if tier == "thorough" or True:
-        ps.insert(1, Part("depth3_mod_interface", "enum", cases=lambda: _Lazy("d3", depth3_terms),
-                          exhaustive_note="depth-3 terms: every composition and every 2-element Conjunction/Stack of one "
-                          "representative per interface class (required, output, value typing) of the depth-<=2 terms"))
+    import os
+
+    if tier == "thorough":
+        d3 = lambda: _Lazy("d3", depth3_terms)  # noqa: E731
+        note3 = ("depth-3 terms: every composition and every 2-element Conjunction/Stack of one representative per "
+                 "interface class (required, output, value typing) of the depth-<=2 terms")
+    else:
+        off = int(os.environ.get("VERIF_SEED", "1")) % 3
+        d3 = lambda: _Lazy("d3q", lambda: depth3_terms(3, off))  # noqa: E731
+        note3 = "depth-3 terms modulo interface: every third term of the complete list (offset VERIF_SEED mod 3); complete in the thorough tier"
+    ps.insert(1, Part("depth3_mod_interface", "enum", cases=d3, exhaustive_note=note3))
     return ps
 
 
@@ -485,10 +500,17 @@ def _check_term(term, out):
         except Exception as e:  # noqa: BLE001
             out.check(False, "wrong-keys-wrong-exception", f"{term} applied to keys {S}: {type(e).__name__}: {str(e)[:80]}")
         out.check(all(k.grad is None for k in keys), "wrong-keys-call-had-side-effects", f"{term} applied to keys {S}")
-    # well-typed application
+    # application on well-keyed inputs (also when the model says the VALUES are ill-typed: then it may raise, but if it
+    # succeeds the result must still have the declared keys and satisfy its own dictionary type)
     in_types = [T_EMPTY] if not m["req"] else [T_GRAD, T_JAC]
+    n_diag = _count(term, "diag")
     for it in in_types:
         want = m["typ"]((it, 3 if it == T_JAC else None))
+        if want is None and n_diag >= 2:
+            # each Diagonalize squares the number of entries of an (ill-typed) Jacobian-like input: a chain of them needs
+            # tens of gigabytes (this killed a worker of the first thorough run); such applications are not attempted
+            out.cls("ill-typed-application-skipped(nested-Diagonalize)")
+            continue
         try:
             tname, vals, grads = apply_and_observe(tr, keys, m, it)
         except IllTyped as e:
@@ -542,6 +564,8 @@ def _check_laws(terms, out):
         out.check(len(req) == 1 and len(outk) == 1, law + ":interface-differs", f"{vs}")
         in_types = [T_EMPTY] if not m["req"] else [T_GRAD]
         for it in in_types:
+            if m["typ"]((it, None)) is None and max(_count(v, "diag") for v in vs) >= 2:
+                continue  # ill-typed application with nested Diagonalize: quadratic blow-up of sizes, not attempted
             obs = []
             for tr, _ in built:
                 try:
